@@ -37,7 +37,9 @@ fn main() {
         }
         i += 2;
     }
-    silence_panics();
+    if std::env::var("HV_LOUD").is_err() {
+        silence_panics();
+    }
     std::fs::create_dir_all(&o.out).ok();
     start_watchdog(o.out.clone(), 40);
     let prop = drv.to_uppercase();
